@@ -9,7 +9,7 @@
    Proofs/WritersDict.v: wf_db (keys, field names, roles unique up to case; every role has a person -- what the API
    builds), map_ids.  Proofs/WritersTree.v: parts_ok p := reparse_person p = Ok p, yaml_ok, xml_ok. *)
 From Pybtex Require Import Base.Prelude Base.PyChar Base.PyStr Model.BibtexStr Model.Names Model.Scanner Model.BibParser Model.Writers
-  Proofs.Writers Proofs.WritersDict Proofs.WritersTree Proofs.WritersQuote Proofs.WritersPerson Proofs.WritersChain Proofs.WritersField Proofs.WritersName Proofs.WritersBib Proofs.WritersNameList Proofs.WritersBibP Proofs.WritersTokens.
+  Proofs.Writers Proofs.WritersDict Proofs.WritersTree Proofs.WritersQuote Proofs.WritersPerson Proofs.WritersChain Proofs.WritersField Proofs.WritersName Proofs.WritersBib Proofs.WritersNameList Proofs.WritersBibP Proofs.WritersTokens Proofs.WritersName0.
 
 (* ---- identifier lower-casing changes nothing but the letter case of keys, entry types, field names, roles *)
 Theorem lower_only_case : forall d, wf_db d -> lower_db d = Ok (map_ids lower d).
@@ -314,3 +314,32 @@ Print Assumptions person_parts_roundtrip.
 Example ex_good_person : good_person braced_person /\ p_first braced_person = [s2l "{\""O}z"] /\
   p_middle braced_person = [s2l "{A B}"; s2l "a\~b"] /\ p_last braced_person = [s2l "{B and N}"].
 Proof. split; [exact braced_person_good|repeat split]. Qed.
+
+(* ---- names WITHOUT a first name through the BibTeX writer and the name parser: Writer._format_name writes
+   "von Last" (no comma), which Person(string) reads in the First-von-Last form.  [expressible0]
+   (Proofs/WritersName0.v): no first / middle / lineage part, plain comma-free tokens, and either a single last-name
+   token with no von part ("Knuth"), or a von part that begins and ends with a von token and a last name none of whose
+   tokens but the final one is a von token ("van der Waals Jansen").  (A person with several last-name tokens, no von
+   part and no first name has no such spelling: the first token would be read as the first name.)
+   Still partial: braced tokens / special characters in names at BibTeX level, lineage without a first name
+   (no BibTeX spelling without a trailing comma). *)
+Theorem bibtex_name_roundtrip_nofirst_partial : forall p, expressible0 p -> person_of_string (format_name p) = Ok (p, false).
+Proof. exact bibtex_name_roundtrip0_pf. Qed.
+Print Assumptions bibtex_name_roundtrip_nofirst_partial.
+
+Example ex_expressible0 :
+  expressible0 (mkPerson [] [] [] [s2l "Knuth"] []) /\
+  expressible0 (mkPerson [] [] [s2l "van"; s2l "der"] [s2l "Waals"; s2l "Jansen"] []) /\
+  format_name (mkPerson [] [] [s2l "van"; s2l "der"] [s2l "Waals"; s2l "Jansen"] []) = s2l "van der Waals Jansen".
+Proof.
+  assert (T : forall t, t <> [] -> forallb nplain t = true -> nplain_tok t) by (intros t A B; split; assumption).
+  split; [|split; [|reflexivity]]; unfold expressible0; cbn [p_first p_middle p_lineage p_prelast p_last].
+  - repeat split; try constructor; try constructor; try (apply T; [discriminate|vm_compute; reflexivity]).
+    + reflexivity.
+    + exists (s2l "Knuth"), false. split; [reflexivity|vm_compute; reflexivity].
+  - split; [reflexivity|]. split; [reflexivity|]. split; [reflexivity|].
+    split; [repeat (constructor; [apply T; [discriminate|vm_compute; reflexivity]|]); constructor|].
+    split; [repeat (constructor; [apply T; [discriminate|vm_compute; reflexivity]|]); constructor|].
+    right. split; [vm_compute; reflexivity|]. split; [vm_compute; reflexivity|]. split; [discriminate|]. split; [discriminate|].
+    cbn [removelast]. constructor; [vm_compute; reflexivity|constructor].
+Qed.
